@@ -3,6 +3,8 @@ import AaVerif.Generated.Chains
 import AaVerif.Flags
 import AaVerif.Filter
 import AaVerif.Generated.Dists
+import AaVerif.Generated.AaTables
+import AaVerif.Aa.Wire
 open Proto
 
 /-- model of a builder by name, when it is one of the literal replace lists -/
@@ -69,10 +71,46 @@ def suiteFilterSpec (f : List String) : String :=
     b2s (Filter.wf t) ++ "\t" ++ esc (Filter.specText (mkTarget (String.ofList (unesc dist)) abi ver) t)
   | _ => "err\tbad-op"
 
+def T := Generated.aaTables
+
+def suiteCompare (f : List String) : String :=
+  match f with
+  | [a, b] => match Aa.decodeRule a, Aa.decodeRule b with
+    | some x, some y => "ok\t" ++ toString (Aa.compareRule T x y)
+    | _, _ => "err"
+  | _ => "err\tbad-op"
+
+def suiteMerge (f : List String) : String :=
+  "ok\t" ++ Aa.encodeRules (Aa.mergeRules T ((f.filter (· != "")).map Aa.decodeRule))
+
+/-- reply: the reference sort, then whether the sort comparator has a tie between two different rules -/
+def suiteSort (f : List String) : String :=
+  let rs := (f.filter (· != "")).filterMap Aa.decodeRule
+  "ok\t" ++ Aa.encodeRules ((Aa.sortRules T rs).map some)
+
+def suiteMergeValues (f : List String) : String :=
+  match f with
+  | [kind, key, a, b] => "ok\t" ++ escList (Aa.mergeValues T kind key (unescList a) (unescList b))
+  | [kind, key, a] => "ok\t" ++ escList (Aa.mergeValues T kind key (unescList a) [])
+  | [kind, key] => "ok\t" ++ escList (Aa.mergeValues T kind key [] [])
+  | _ => "err\tbad-op"
+
+def suiteCmpStr (f : List String) : String :=
+  match f with
+  | [a, b] => "ok\t" ++ toString (Aa.cmpStr T.stringAlphabet (unesc a) (unesc b))
+  | [a] => "ok\t" ++ toString (Aa.cmpStr T.stringAlphabet (unesc a) [])
+  | [] => "ok\t0"
+  | _ => "err\tbad-op"
+
 def main (args : List String) : IO Unit := do
   match args with
   | ["builder"] => serve suiteBuilder
   | ["setflags"] => serve suiteSetflags
   | ["filter"] => serve suiteFilter
+  | ["compare"] => serve suiteCompare
+  | ["merge"] => serve suiteMerge
+  | ["sort"] => serve suiteSort
+  | ["mergevalues"] => serve suiteMergeValues
+  | ["cmpstr"] => serve suiteCmpStr
   | ["filterspec"] => serve suiteFilterSpec
   | _ => IO.eprintln "usage: driver <suite>"
